@@ -1,7 +1,161 @@
-//! Lane `routing` (stub).
+//! Lane `routing` (C01, also feeds C05/C13 observations): random histories of concurrent single
+//! operations and searches against a scripted server answering in arbitrary order, with
+//! unsolicited / late / unknown-ID frames; the merged real trace must be accepted by Model.Conn.
 use crate::out::Out;
 use crate::rng::Rng;
+use crate::scen::*;
 
-pub fn run(_thorough: bool, _rng: Rng, out: Out) {
-    out.finish("stub lane: nothing generated yet");
+pub fn gen_script(rng: &mut Rng, n_ops: usize, with_faults: bool, with_timeouts: bool) -> Vec<Step> {
+    let mut steps = vec![];
+    let mut next_id: i64 = 1; // the IDs a fresh connection hands out: 1, 2, 3, …
+    let mut live_single: Vec<i64> = vec![];
+    let mut live_search: Vec<(usize, i64)> = vec![]; // (op index, id)
+    let mut op_index = 0usize;
+    let mut budget = n_ops;
+    let mut guard = 0;
+    while (budget > 0 || !live_single.is_empty() || !live_search.is_empty()) && guard < 400 {
+        guard += 1;
+        let choice = rng.below(100);
+        if budget > 0 && choice < 35 {
+            let tmo = if with_timeouts && rng.chance(1, 3) { Some(*rng.pick(&[1u64, 10, 1000])) } else { None };
+            let kind = match rng.below(10) {
+                0..=4 => OpKind::Single,
+                5..=8 => OpKind::Search,
+                _ => {
+                    let t = if !live_single.is_empty() && rng.chance(1, 2) { *rng.pick(&live_single) as i32 } else if !live_search.is_empty() && rng.chance(1, 2) { rng.pick(&live_search).1 as i32 } else { rng.range(1, 12) as i32 };
+                    live_single.retain(|x| *x != t as i64);
+                    live_search.retain(|x| x.1 != t as i64);
+                    OpKind::Abandon(t)
+                }
+            };
+            match kind {
+                OpKind::Single => live_single.push(next_id),
+                OpKind::Search => live_search.push((op_index, next_id)),
+                _ => {}
+            }
+            steps.push(Step::Issue { kind, tmo_ms: tmo });
+            next_id += 1;
+            op_index += 1;
+            budget -= 1;
+            if rng.chance(2, 3) {
+                steps.push(Step::Settle);
+            }
+        } else if choice < 60 && !live_single.is_empty() {
+            let k = rng.below(live_single.len() as u64) as usize;
+            let id = live_single.remove(k);
+            steps.push(Step::Send { id, op: *rng.pick(&[1u64, 7, 9, 11, 13, 15, 24]), good: true });
+        } else if choice < 80 && !live_search.is_empty() {
+            let k = rng.below(live_search.len() as u64) as usize;
+            let (oi, id) = live_search[k];
+            match rng.below(10) {
+                0..=5 => {
+                    steps.push(Step::Send { id, op: *rng.pick(&[4u64, 4, 19, 25]), good: false });
+                    if rng.chance(1, 2) {
+                        steps.push(Step::Settle);
+                        steps.push(Step::Next(oi));
+                    }
+                }
+                6..=7 => {
+                    steps.push(Step::Send { id, op: 5, good: true });
+                    live_search.remove(k);
+                    steps.push(Step::Settle);
+                    for _ in 0..rng.range(1, 4) {
+                        steps.push(Step::Next(oi));
+                        steps.push(Step::Settle);
+                    }
+                    steps.push(Step::Finish(oi));
+                }
+                _ => {
+                    // finished early by the caller
+                    steps.push(Step::Finish(oi));
+                    live_search.remove(k);
+                }
+            }
+        } else if choice < 88 {
+            // unsolicited / unknown / late frame
+            let id = match rng.below(4) { 0 => 0, 1 => rng.range(1, next_id.max(2) as u64) as i64, 2 => next_id + rng.range(0, 5) as i64, _ => *rng.pick(&[2147483647i64, 65536, 255]) };
+            live_single.retain(|x| *x != id);
+            if live_search.iter().any(|x| x.1 == id) {
+                continue;
+            }
+            steps.push(Step::Send { id, op: *rng.pick(&[11u64, 7, 24]), good: true });
+        } else if choice < 93 && with_timeouts {
+            steps.push(Step::Tick(*rng.pick(&[1u64, 5, 10, 500, 1000])));
+            steps.push(Step::Settle);
+        } else if choice < 95 {
+            steps.push(Step::Table);
+        } else if choice < 97 && with_faults {
+            match rng.below(4) {
+                0 => steps.push(Step::Close),
+                1 => steps.push(Step::Garbage),
+                2 => steps.push(Step::FailWrites),
+                _ => steps.push(Step::Reset),
+            }
+            steps.push(Step::Settle);
+        } else {
+            steps.push(Step::Settle);
+        }
+    }
+    steps.push(Step::Settle);
+    // read whatever is left on the open streams, then finish them
+    for (oi, _) in live_search {
+        steps.push(Step::Finish(oi));
+    }
+    steps.push(Step::Settle);
+    steps.push(Step::Table);
+    steps
+}
+
+pub fn run(thorough: bool, mut rng: Rng, mut out: Out) {
+    let n = if thorough { 4000 } else { 300 };
+    for k in 0..n {
+        let n_ops = rng.range(2, 8) as usize;
+        let script = gen_script(&mut rng, n_ops, k % 5 == 4, k % 3 == 2);
+        let o = run_script(&script);
+        let ev = to_model_events(&o.trace);
+        out.case(&ev, n_ops >= 2);
+        out.stat(&format!("ops={}", n_ops));
+        out.stat_n("events", o.trace.len() as u64);
+        out.m(&format!("conn.trace {}", ev), "accept");
+        // oracle independent of the model: every client result carries the token the server put
+        // into a frame with that operation's own message ID (checked from the trace alone)
+        let mut id_of_op: std::collections::HashMap<String, String> = Default::default(); // op index -> id
+        let mut tok_id: std::collections::HashMap<String, String> = Default::default(); // token -> frame id
+        let mut opq: Vec<String> = vec![];
+        let mut ok = true;
+        let mut why = String::new();
+        for t in &o.trace {
+            let w: Vec<&str> = t.split(' ').collect();
+            match (w[0], w.get(1).copied().unwrap_or("")) {
+                ("cli", "issue") => opq.push(w[2].to_string()),
+                ("drv", "op") => {
+                    if !opq.is_empty() {
+                        let oi = opq.remove(0);
+                        id_of_op.insert(oi, w[2].to_string());
+                    }
+                }
+                ("srv", "send") => {
+                    tok_id.insert(w[4].to_string(), w[2].to_string());
+                }
+                ("cli", "done") if w[3].starts_with("frame:") => {
+                    let tok = &w[3][6..];
+                    if tok_id.get(tok) != id_of_op.get(w[2]) {
+                        ok = false;
+                        why = format!("op {} (id {:?}) got token {} sent under id {:?}", w[2], id_of_op.get(w[2]), tok, tok_id.get(tok));
+                    }
+                }
+                ("cli", "next") if w[4].starts_with("item:") => {
+                    let tok = w[4].rsplit(':').next().unwrap();
+                    if tok_id.get(tok) != id_of_op.get(w[2]) {
+                        ok = false;
+                        why = format!("search {} (id {:?}) got token {} sent under id {:?}", w[2], id_of_op.get(w[2]), tok, tok_id.get(tok));
+                    }
+                }
+                _ => {}
+            }
+        }
+        out.r(&format!("routing.token-matches-id script#{}", k), ok, &format!("{} ; trace: {}", why, ev));
+        out.r(&format!("routing.no-hang-after-driver-end script#{}", k), o.watchdog_stuck.is_empty(), &ev);
+    }
+    out.finish("random histories of 2..8 concurrent operations (single-result, searches, abandons) from cloned handles on one connection; scripted server answering in arbitrary order, entries of different searches interleaved, unsolicited/unknown/late IDs, optional timeouts and faults; non-trivial = at least 2 operations; distinct by FNV of the event trace");
 }
